@@ -1,6 +1,9 @@
 """C13 — encrypted databases leak nothing at rest and only open with their key (structural clauses)."""
 import re
 from ir import last_seg
+import os
+import sys
+sys.path.insert(0, os.path.dirname(os.path.abspath(__file__)))
 import analysis as A
 import witness
 
@@ -213,8 +216,14 @@ def clause_keyring(prog, rep):
         gens = [c for c in f.live_calls() if c.name == "generate" and last_seg(c.self_adt) == "EncryptionConfig"]
         gets = [c for c in f.live_calls() if any(t.name == "get_db_key" for t in prog.call_targets(c))]
         rep.floor("keyring", "set_secret / lock / generate / lookups", min(len(sets), len(locks), len(gens)), 1)
+        import c19 as _c19
+        held = set()
+        for l_ in locks:
+            region, _g = _c19.live_region(f, l_)
+            held |= region
         for c in sets + gens:
-            rep.check(A.succ_dominated(f, c.bb, locks), "keyring", "%s/under-lock" % c.name, "%s happens only after the process-wide lock was acquired" % c.name,
+            # acquired before *and still held*: the call lies inside the guard's live range
+            rep.check(A.succ_dominated(f, c.bb, locks) and c.bb in held, "keyring", "%s/under-lock" % c.name, "%s happens while the process-wide lock is held" % c.name,
                       "%s can run without holding the key-generation lock: two threads may generate different keys" % c.name, c.loc())
             # a second lookup after the lock: a lookup call dominated by the lock dominates the generation
             after = [g for g in gets if locks and A.succ_dominated(f, g.bb, locks)]
